@@ -356,6 +356,13 @@ func (ex *Exec) structuralClauses(res *FuncResult) {
 	if ct == nil {
 		return
 	}
+	// every assert_at clause must have been reached by some path (otherwise it checks nothing)
+	for _, key := range sortedKeys(ct.asserts) {
+		if !ex.assertSeen[key] {
+			ob := ex.obl(ex.rootName+"/assert_at-unreached:"+key, "structural")
+			ob.VCs = append(ob.VCs, VC{goal: "false", note: "assert_at " + key + ": no call of that name is reached on any path: the clause is vacuous"})
+		}
+	}
 	// selects: the function must have a select receive arm for each named channel
 	if len(ct.selects) > 0 {
 		have := map[string]bool{}
